@@ -214,6 +214,9 @@ def _run_quick_arrays(c, R, rho, g, mu, M, n, s, bad):
 
 
 def replay(case):
+    if case.get('kind') == 'solver':
+        from . import C12_solver
+        return C12_solver.replay(case)
     return run_case(case)['viol']
 
 
@@ -226,3 +229,6 @@ def run(ctx):
                      'non-synchronous spin for l_max 2..7; distinct = distinct (log10 m_l, l, rheology, w, eta) / '
                      'distinct returned Love-number tuples',
                 exhaustive=True)
+    # cross-module leg: the helpers' k_l vs the layered radial solver on the same uniform incompressible body
+    from . import C12_solver
+    C12_solver.run(ctx)
